@@ -1,8 +1,65 @@
 import MidnightZK.Model.Common
-/-! Line-protocol handler of property C01 (stub: answers `unimplemented`). -/
+import MidnightZK.Model.C01.Schedule
+/-! Line-protocol handler of property C01. -/
 namespace MidnightZK.C01.Driver
+open MidnightZK MidnightZK.C01
 
-def answer (_line : String) : String := "unimplemented"
+def parseQueries? (s : String) : Option (List (Nat × Int)) :=
+  if s = "-" ∨ s.isEmpty then some [] else
+  (s.splitOn ",").mapM fun t =>
+    match t.splitOn ":" with
+    | [c, r] => do
+      let c ← parseNat? c
+      let r ← parseInt? r
+      pure (c, r)
+    | _ => none
+
+def kv (ws : List String) (key : String) : Option String :=
+  ws.findSome? fun w => if w.startsWith (key ++ "=") then some (w.drop (key.length + 1)).toString else none
+
+def parseShape? (ws : List String) : Option Shape := do
+  let ap ← parseNatList? (← kv ws "ap")
+  let cp ← parseNatList? (← kv ws "cp")
+  let aq ← parseQueries? (← kv ws "aq")
+  let iq ← parseQueries? (← kv ws "iq")
+  let fq ← parseQueries? (← kv ws "fq")
+  let nl ← parseNat? (← kv ws "nl")
+  let nt ← parseNat? (← kv ws "nt")
+  let pc ← parseNat? (← kv ws "pc")
+  let deg ← parseNat? (← kv ws "deg")
+  let bl ← parseNat? (← kv ws "bl")
+  let k ← parseNat? (← kv ws "k")
+  pure { advicePhase := ap, challengePhase := cp, adviceQueries := aq, instanceQueries := iq,
+         fixedQueries := fq, numLookups := nl, numTrash := nt, permCols := pc, degree := deg,
+         blinding := bl, k := k }
+
+def parseCfg? (ws : List String) : Option Cfg := do
+  let np ← parseNat? (← kv ws "np")
+  let nc ← parseNat? (← kv ws "nc")
+  let lens ← ((← kv ws "lens").splitOn "|").mapM parseNatList?
+  pure { nProofs := np, nCommitted := nc, lens := lens }
+
+def tok (e : Ev) : String :=
+  let t := match e.ty with | .G => "G" | .F => "F"
+  match e.kind with
+  | .squeeze => "S"
+  | .absorb => "C" ++ t
+  | .elem => "E" ++ t
+
+def answer (line : String) : String :=
+  match words line with
+  | "schedule" :: side :: rest =>
+    match parseShape? rest, parseCfg? rest with
+    | some sh, some cfg =>
+      if side = "P" then " ".intercalate ((proverSchedule sh cfg).map tok)
+      else if side = "V" then " ".intercalate ((verifierSchedule sh cfg).map tok)
+      else "bad-op"
+    | _, _ => "bad-op"
+  | "prooflen" :: rest =>
+    match parseShape? rest, parseCfg? rest with
+    | some sh, some cfg => toString (proofLen sh cfg)
+    | _, _ => "bad-op"
+  | _ => "bad-op"
 
 end MidnightZK.C01.Driver
 
